@@ -254,6 +254,23 @@ def r2_races(ctx, repo):
         p = access_path(c.func) or ""
         if p.endswith(".append") and ".problem." in p:
             listed.append("%s: shared container mutated through list.append (atomic under the GIL; not a per-design observable)" % p)
+    # a worker writes its own design only: a whole-registry write from inside the closure stores the other workers' designs
+    # in whatever state they are at that moment, and may land after their owners' final write
+    whole = []
+    for label, mod, fn, kind in cl:
+        if not label.startswith("Job."):
+            continue
+        for s_ in stmts_of(fn):
+            if isinstance(s_, (ast.If, ast.For, ast.While, ast.Try, ast.With)):
+                continue
+            for c in calls_in(s_):
+                if (access_path(c.func) or "").endswith(".data_store.sync_all") or (access_path(c.func) or "").endswith(".sync_all"):
+                    whole.append((label, mod, s_))
+    if whole:
+        label, mod, s_ = whole[0]
+        ctx.violated("R2", label, where(mod, s_), "%s writes the WHOLE registry to the store (%s) from inside a worker: the rows of designs that other workers are still "
+                     "evaluating are written in their unfinished state and can overwrite the owners' final rows when this write lands last" % (label, text(s_).strip()[:60]),
+                     key="whole-registry-write")
     ctx.extra["shared_state_in_worker_closure"] = listed
     ctx.sample({"shared state touched by the worker closure (not alarmed)": listed})
     if not any(i.rule == "R2" and i.outcome == "VIOLATED" for i in ctx.instances):
